@@ -555,6 +555,7 @@ def worldOp (st : Option DState) (op : String) (args tr : List String) : Option 
   | "dnsq", _, st => (st, dnsModel args tr)
   | "dyndns", _, st => (st, dyndnsModel args tr)
   | "faultcmp", [_, _], st => (st, "faultcmp")
+  | "faultcmp", [_, _, _], st => (st, "faultcmp")
   | "faultleak", [_, _], st => (st, "faultleak")
   | "vcert", _, st => (st, vcertModel args tr)
   | "tlsconn", _, st => (st, tlsconnModel args tr)
